@@ -141,6 +141,19 @@ def directed(rng):
         pods = [dc.pod("p1", "c1", cpu=1500)]
         during = [{"a": "SetOffering", "type": typ, "zone": z, "ct": ct, "price": -1, "available": False} for z in ("zone-a", "zone-b")]
         add("ice-%s-%s" % (typ, ct), nodes, pods, during)
+    # E: the only room is on a node that is not initialized yet / a pod of the removed node cannot be scheduled anywhere
+    for stage in ("registered", "initialized"):
+        nodes = [dc.node("c1", "pa", "t3"), dc.node("r", "pr", "t3", stage=stage)]
+        pods = [dc.pod("p1", "c1", cpu=800)]
+        out.append(scenario("dest-stage:" + stage, default_catalog(), [dc.pool("pa"), dc.pool("pr", ca=-1)], nodes, pods,
+                            [{"a": "Method", "method": "single"}, {"a": "Method", "method": "multi"}, {"a": "Round"}],
+                            {"kind": "directed", "case": "dest-" + stage}))
+    for sel in ({"zone": "zone-x"}, {"it": "t9"}, {"ct": "reserved"}):
+        nodes = [dc.node("c1", "pa", "t3"), dc.node("c2", "pa", "t2")]
+        pods = [dc.pod("p1", "c1", cpu=800), dc.pod("stuck", "c1", cpu=300, sel=sel), dc.pod("p2", "c2", cpu=500)]
+        out.append(scenario("stuck-pod:" + "-".join(sel.values()), default_catalog(), [dc.pool("pa")], nodes, pods,
+                            [{"a": "Method", "method": "single"}, {"a": "Method", "method": "multi"}, {"a": "Round"}],
+                            {"kind": "directed", "case": "stuck-pod"}))
     # D: the pod on the removed node disappears while the command waits (witness mentions a pod that is gone)
     nodes = [dc.node("c1", "pa", "t3")]
     pods = [dc.pod("p1", "c1", cpu=1500), dc.pod("p1b", "c1", cpu=300)]
